@@ -39,7 +39,10 @@ CHECKS = {
         level="model_checking",
         technique="TLC model-checks math/Measures.tla (state machine over product measures and scenarios: load, append, update, "
                   "weight/position assignment, center_mass/range/var setters) against its invariants and action properties; "
-                  "every emitted state and transition is replayed on real point_mass/measure/product_measure/scenario objects",
+                  "every emitted state and transition is replayed on real point_mass/measure/product_measure/scenario objects; "
+                  "grown: math/MeasureBounds.tla (EXTENDS Measures; Bounds/MeasureBounds objects, the remaining statistics, "
+                  "reweighting witnesses) and math/MeasureAlias.tla (a heap of measure objects + the product's slot references; "
+                  "denotation refinement), replayed by harness/c19_growth.py",
         text="All 39 shapes with <=3 factors of 1-3 points (unequal sizes included), weights 0..2, positions -1..10, one or two "
              "edits after a load.  Every state is rebuilt from raw point masses: structure, flatten() (measure and scenario), "
              "weights, positions, mass, npts equal the TLC values exactly; total weight = product of factor masses; round "
@@ -47,8 +50,18 @@ CHECKS = {
              "_nested_split/_nested/_flat; expect, pof, pof_value (six position and two value functions), support, "
              "support_index, mean_value, factor center_mass/range/mass exactly against TLC's explicit sums, expect_var/var at "
              "1e-9; transitions: update footprint, load/append, weight and position assignment, center_mass/range/var "
-             "setters (achieved value within 1e-9, everything else untouched).",
-        note="trusted: TLC and its Json module; a measure is 'equal' when pts, wts, pos, flatten(), weights, positions are "
+             "setters (achieved value within 1e-9, everything else untouched).  Growth: Bounds/MeasureBounds built with n = pts "
+             "address the parameter vector slot by slot (lower/upper/x*/w*/len/b()/+ and split_param of the bounds equal the "
+             "specified lists); min/max/ptp/ess_* (measure and product), measure-level expect/support, normalize (mass, "
+             "zsum/zmass), weighted_select/sampled_* under a scripted random stream, select/differs_by_one, shortness/validity, "
+             "set_mean_value, bounded_mean and the weight-normalising constraint factories equal the explicit definitions; "
+             "impose_reweighted_* reach a reachable target changing only the weights.  Object identity: a product's observables "
+             "depend only on the contents of its slots, not on which slots share a measure object; update/load build new "
+             "measures and never modify a measure that existed before (24/120 aliased constructions, 2.7k/14.9k heap checks).",
+        note="growth: undefined cases are counted, not compared (empty support, zero mass, infeasible bounded_mean target); "
+             "select only for 2-point measures; set_feasible/set_valid are post-conditions from a feasible guess; the setters are "
+             "explored on unshared objects only; reweighting tolerance 1e-6.  "
+             "trusted: TLC and its Json module; a measure is 'equal' when pts, wts, pos, flatten(), weights, positions are "
              "equal; with total weight 0 the statistics are undefined and skipped; setter premise: factor mass != 0 and an "
              "achievable target; update only within its documented premise len(vector) >= 2*sum(pts)",
         design_ref="DESIGN.md section 4/C19"),
